@@ -88,6 +88,19 @@ def impl_write(fs):
     return bytes(c.get_buffer())
 
 
+def impl_rewrite(bs):
+    """list a stream with the tool's reader and write the CoCoFile objects it returns (with whatever the reader
+    recorded in them, e.g. the gap flag) to a new tape, as file_util --to_cas does -> bytes | None"""
+    CassetteFile, _, _, VFVE = impl()
+    try:
+        objs = CassetteFile(buffer=list(bs)).list_files()
+        c = CassetteFile()
+        c.add_files(objs)
+        return bytes(c.get_buffer())
+    except Exception:  # noqa
+        return None
+
+
 def impl_list(bs):
     """-> ('OK', [files]) | ('DIAG',) | ('INTERNAL', kind) | ('UNMODELLED',)"""
     CassetteFile, _, _, VFVE = impl()
@@ -305,6 +318,24 @@ def run(pid, tier, seed, rep, info):
                 rep.sample({"files": [(f[0], f[1], f[2], f[3], f[4], "%d bytes" % len(f[5])) for f in fs]})
             if not check_write_case(pid, fs, drv, rep) and rep.full():
                 break
+        if pid == "C14":
+            # tapes written from files that were READ from another tape (gapped or not): what file_util --to_cas does
+            for i in range(n_streams // 2):
+                bs, files = gen_stream(rng, tier)
+                if not files:
+                    continue
+                rep.count(("rewrite", bs.hex()[:2000], len(bs)), nontrivial=True)
+                hist["rewritten"] = hist.get("rewritten", 0) + 1
+                out = impl_rewrite(bs)
+                if out is None:
+                    continue        # the reader's business (C06)
+                r = drv.ask("casparse " + (out.hex() or "-"))
+                good = r.startswith("SOME ") and [x[:6] for x in dec_files(r[5:], True)] == [norm(f) for f in files]
+                if not good:
+                    rep.violation("a tape written from files read from another tape is not a well-formed stream holding them (spec parser: %s)" % r[:120],
+                                  {"kind": "rewrite", "source_stream": bs.hex(), "impl_bytes": out.hex(), "spec": r[:2000]})
+                if rep.full():
+                    break
         if pid == "C06":
             for i in range(n_streams):
                 bs, files = gen_stream(rng, tier)
@@ -343,6 +374,12 @@ def replay(pid, path):
             ok = check_write_case(pid, fs, drv, rep)
         elif r.get("kind") == "stream":
             ok = check_stream_case(bytes.fromhex(r["stream"]), None, drv, rep, False)
+        elif r.get("kind") == "rewrite":
+            out = impl_rewrite(bytes.fromhex(r["source_stream"]))
+            src = drv.ask("casparse " + r["source_stream"])
+            res = drv.ask("casparse " + (out.hex() or "-")) if out is not None else "NONE"
+            ok = res.startswith("SOME ") and src.startswith("SOME ") and \
+                [x[:6] for x in dec_files(res[5:], True)] == [x[:6] for x in dec_files(src[5:], True)]
         else:
             print("replay: nothing executable recorded (%s)" % r.get("what", "")[:200])
             return 1
